@@ -84,6 +84,10 @@ def strings(rng, n, thorough):
     # the protocol allows strings of up to 32767 characters, i.e. up to
     # 3 * 32767 + 3 bytes of UTF-8: lengths around that limit in characters and
     # in bytes (a length check applied to the wrong unit shows here)
+    # code points that text layers like to treat specially
+    out += ['\ufeff', '\ufeffabc', 'a\ufeff', '\ufeff\ufeff', '\ufffe',
+            '\uffff', '\u2028\u2029', '\r\n', '\x00abc', 'abc\x00',
+            '\u200b', '\ud7ff\ue000', '\x85', '\x1a']
     out += ['a' * 32767, 'a' * 32766, '中' * 10922, '中' * 10923, 'я' * 16383,
             'я' * 16384, 'я' * 20000, 'é' * 32767, '中' * 32767]
     pools = ['abc XYZ', 'éüñ', '€中文', '\U0001F600\U0001F4A9', '\x00\x01\x7f']
